@@ -194,8 +194,9 @@ def pick_endpoints(rng, fam, prev, collide_with=None):
 
 
 def gen_case(rng, collide=False, big=False, defaults=False):
-    ka = rng.choice([300000000, 1000, 50000, 1])
-    cfg = dict(attach=int(rng.random() < 0.45), maxc=rng.choice([512, 512, 2, 3, 5, 8, 0]), maxb=rng.choice([3145728, 3145728, 10, 40, 100, 0]),
+    ka = rng.choice([300000000, 300000000, 300000000, 1000, 50000, 50000, 1 if rng.random() < 0.3 else 7])
+    cfg = dict(attach=int(rng.random() < 0.45), maxc=rng.choice([512, 512, 512, 512, 2, 3, 5, 8, 0 if rng.random() < 0.3 else 4]),
+               maxb=rng.choice([3145728, 3145728, 3145728, 3145728, 10, 40, 100, 0 if rng.random() < 0.3 else 25]),
                ka=ka, acl=int(rng.random() < 0.8), ooo=int(rng.random() < 0.5))
     if defaults:
         cfg.update(maxc=512, maxb=3145728)
@@ -216,6 +217,8 @@ def gen_case(rng, collide=False, big=False, defaults=False):
         style = rng.choice(["full", "full", "full", "mid", "flood", "synonly", "nosynack"])
         if defaults:
             style = "flood"
+        if style == "mid" and not cfg["attach"] and rng.random() < 0.7:
+            style = "full"
         script(rng, c, style, cfg)
         if fresh:
             ops += c.decls()
@@ -230,7 +233,7 @@ def gen_case(rng, collide=False, big=False, defaults=False):
         if cur not in alive or rng.random() < 0.6:
             cur = rng.choice(alive)
         r = rng.random()
-        gap = rng.randint(0, max(1, ka // 40)) if r < 0.8 else rng.randint(0, ka) if r < 0.9 else rng.randint(ka, 3 * ka + 2)
+        gap = rng.randint(0, max(1, ka // 400)) if r < 0.9 else rng.randint(0, ka) if r < 0.95 else rng.randint(ka, 3 * ka + 2)
         if not mono and rng.random() < 0.1:
             t = max(0, t - rng.randint(0, ka))
         else:
